@@ -673,4 +673,7 @@ ViewS == <<k, mon, script>>   \* needed when the alphabet can restart processes 
 (* export: for every distinct state, the program (prefix) that reaches it on a shortest path; the    *)
 (* replay harness runs it on the real library, where each process returns when its script runs out  *)
 ExportProg == PrintT(<<"P", script>>)
+(* for random walks (TLC -simulate) through configurations too large for breadth-first search: print  *)
+(* the program only when it has run to quiescence                                                     *)
+ExportQuiescent == (k.run = 0 /\ k.evq = {}) => PrintT(<<"P", script>>)
 =============================================================================
